@@ -25,7 +25,7 @@ ASSUMPTIONS = [
     "the harness is built with NDEBUG like the shipped library (asserts compiled out)",
 ]
 TRUSTED = ["correspondence harness harness/h_regtable.c + tools/lib/vf.py"]
-DESIGN_REF = "DESIGN.md section 8, C01"
+DESIGN_REF = "DESIGN.md section 0.2 (as built) and section 8, C01"
 TECHNIQUE = "Lean 4 proofs over the register-table model (set/get round trip through the endian spec, storage frame, refusal characterisation, unchecked variant) + differential correspondence over a type x constraint x byte-order x area-kind family"
 LEVEL_TEXT = ("Machine-checked proof over the Lean model of the typed register access: a successful set stores exactly the value's image in the table's byte order at the "
               "register's offset and changes no other atom; get then returns the identical value; set is refused with unchanged storage for a foreign type, a violated "
